@@ -13,9 +13,9 @@ Cross-radix theorems: `NormL.CrossCtx bits ab rb rs 0 H a` = `bits ∈ {64,128}`
 `0 ≤ H`, `H + 8 ≤ 2^(bits-2)`, every limb of `a` bounded by `H` (i64: `|limb| ≤ 2^62 − 8`).
 
 /- FULL STATEMENTS not (fully) proved; everything below is covered by correspondence + oracle:
-   none for the value properties.  Two things the cross-radix theorems deliberately do not say:
-   (1) termination of the fuelled inner loop is a hypothesis (`… = some out`); the fuel was never
-       exhausted in the correspondence, and every non-vacuity example evaluates to `some`;
+   none for the value properties.  Remarks on the cross-radix theorems:
+   (1) [closed] termination of the fuelled inner loop: `normalize_cross_terminates` proves the routine
+       always returns, so the hypotheses `… = some out` are always satisfiable (`…_total` forms);
    (2) exactness is stated at limb granularity of `a` (`ab·a_size ≤ rb·rs + ⌊off/ab⌋·ab`); the
        bit-granular condition of the same-radix theorem (`ab·a_size − off ≤ rb·rs`) is not claimed.
 -/
@@ -844,6 +844,52 @@ example : ∃ res', bigNormalizeAssignCoef128 .sub 12 (-33) 20 [2 ^ 120 - 987654
     Option.isSome_iff_exists.mp (by decide +kernel)
   exact ⟨r, h, big_normalize_sub_value128_cross (res := [2 ^ 62, -(2 ^ 62), 9]) ctx128 (by decide) (-33)
     (by intro x hx; simp at hx; rcases hx with rfl | rfl | rfl <;> norm_num) h⟩
+
+/-! ### termination of the cross-radix loop: the routines always return -/
+
+/-- **the cross-radix routine always returns**: the model's `'inner` loop fuel (`ab + 2` passes) is never
+exhausted, for all radices `≥ 1`, sizes, offsets and inputs (no head-room needed: the loop counters are
+data independent).  So the hypotheses `… = some out` above are always satisfiable, and the driver's
+`err:fuel` outcome is unreachable. -/
+theorem normalize_cross_terminates (bits rb rs : Nat) (off : Int) (ab : Nat) (a : List Int) (hab1 : 1 ≤ ab) (hrb1 : 1 ≤ rb) :
+    ∃ out, normalizeCrossCoef bits rb rs off ab a = some out :=
+  normalizeCrossCoef_exists bits rb rs off ab a hab1 hrb1
+
+example : ∃ out, normalizeCrossCoef 64 62 3 (-500) 1 [1, -1, 1, 1] = some out :=
+  normalize_cross_terminates 64 62 3 (-500) 1 _ (by norm_num) (by norm_num)
+
+/-- **total form, `vec_znx_normalize` / FFT64 `vec_znx_big_normalize`**: any radix pair, every offset — the call
+returns `rs` limbs with `|d| ≤ 2^rb − 1` representing `a·2^off` within one unit of the last limb. -/
+theorem normalize_value_total {ab rb rs : Nat} {H : Int} {a : List Int} (c : CrossCtx 64 ab rb rs 0 H a) (off : Int) :
+    ∃ out, normalizeCoef rb rs off ab a = some out ∧ out.length = rs ∧ (∀ d ∈ out, |d| ≤ 2 ^ rb - 1) ∧
+      TorusNear (valI rb out) (rb * rs) (valI ab a * 2 ^ off.toNat) (ab * a.length + (-off).toNat) := by
+  obtain ⟨out, h⟩ := normalizeCoef_exists rb rs off ab a c.hlsh c.hrb1
+  obtain ⟨h1, h2, h3, _⟩ := normalize_value c off h
+  exact ⟨out, h, h1, h2, h3⟩
+
+/-- **total form, NTT120 `vec_znx_big_normalize`** -/
+theorem big_normalize128_value_total {ab rb rs : Nat} {H : Int} {a : List Int} (c : CrossCtx 128 ab rb rs 0 H a) (off : Int) :
+    ∃ out, bigNormalizeCoef128 rb rs off ab a = some out ∧ out.length = rs ∧ (∀ d ∈ out, |d| ≤ 2 ^ rb - 1) ∧
+      TorusNear (valI rb out) (rb * rs) (valI ab a * 2 ^ off.toNat) (ab * a.length + (-off).toNat) := by
+  obtain ⟨out, h⟩ := bigNormalizeCoef128_exists rb rs off ab a c.hlsh c.hrb1
+  obtain ⟨h1, h2, h3, _⟩ := big_normalize128_value c off h
+  exact ⟨out, h, h1, h2, h3⟩
+
+/-- **total form, NTT120 fused `vec_znx_big_normalize_{add,sub}_assign`, different radices**: the call returns,
+and `res' − res` represents `±a·2^off` within one unit of the last limb -/
+theorem big_normalize_fused128_cross_total {ab rb : Nat} {H : Int} {a res : List Int}
+    (c : CrossCtx 128 ab rb res.length 0 H a) (hne : rb ≠ ab) (off : Int) (hres : ∀ r ∈ res, |r| ≤ 2 ^ 62) :
+    (∃ res', bigNormalizeAssignCoef128 .add rb off ab a res = some res' ∧
+      TorusNear (valI rb res' - valI rb res) (rb * res.length) (valI ab a * 2 ^ off.toNat) (ab * a.length + (-off).toNat)) ∧
+    (∃ res', bigNormalizeAssignCoef128 .sub rb off ab a res = some res' ∧
+      TorusNear (valI rb res' - valI rb res) (rb * res.length) (-(valI ab a * 2 ^ off.toNat)) (ab * a.length + (-off).toNat)) := by
+  obtain ⟨t, ht⟩ := normalizeCrossCoef_exists 128 rb res.length off ab a c.hlsh c.hrb1
+  have hadd : bigNormalizeAssignCoef128 .add rb off ab a res = some (List.zipWith (fun r x => AccOp.add.apply r x) res t) := by
+    unfold bigNormalizeAssignCoef128; rw [if_neg hne, ht]; rfl
+  have hsub : bigNormalizeAssignCoef128 .sub rb off ab a res = some (List.zipWith (fun r x => AccOp.sub.apply r x) res t) := by
+    unfold bigNormalizeAssignCoef128; rw [if_neg hne, ht]; rfl
+  exact ⟨⟨_, hadd, big_normalize_add_value128_cross c hne off hres hadd⟩,
+    ⟨_, hsub, big_normalize_sub_value128_cross c hne off hres hsub⟩⟩
 
 /-- when the offset shifts the whole input out (`res_start = 0` in the Rust) the output is exactly zero,
 for every offset (no head-room needed) -/
